@@ -42,8 +42,39 @@ def inject(p, where, tss):
     return p, len(slots)
 
 
+def raise_ts(p):
+    """timestamps at which a scripted raise inside the predicate fires"""
+    if not isinstance(p, tuple):
+        return set()
+    out = set(p[1]) if p[0] == "raiseon" else set()
+    for x in p[1:]:
+        out |= raise_ts(x)
+    return out
+
+
+def castraise_cfg(cfg, exc):
+    """the raise comes from the CAST of the typed predicate: the events with the scripted timestamps carry a datum
+    whose conversion raises `exc`, so EVERY (typed) predicate evaluated on such an event raises"""
+    c = copy.deepcopy(cfg)
+    allp = [x for _ph, ps in c["phen"] for p in ps for x in p["pre"] + p["halt"] + [q for b in p["blocks"] for q in b["preds"]]]
+    ts = sorted(set().union(*[raise_ts(x) for x in allp]) if allp else set())
+
+    def wrap(x):
+        return ("raiseon", ts, PL.strip_raise(x) if "raisehist" not in repr(x) else x)
+    for _ph, ps in c["phen"]:
+        for p in ps:
+            p["pre"] = [wrap(x) for x in p["pre"]]
+            p["halt"] = [wrap(x) for x in p["halt"]]
+            for b in p["blocks"]:
+                b["preds"] = [wrap(x) for x in b["preds"]]
+    c["mode"] = dict(typed=True, castexc=exc, cast_ts=ts)
+    return c
+
+
 def deraise_cfg(cfg):
     c = copy.deepcopy(cfg)
+    if (c.get("mode") or {}).get("castexc"):
+        c["mode"] = dict(typed=True)          # the False variant: ordinary data, predicates answer False there
     for _ph, ps in c["phen"]:
         for p in ps:
             p["pre"] = [PL.strip_raise(x) for x in p["pre"]]
@@ -65,12 +96,18 @@ MODES += [dict(exc=n, typed=True) if i % 3 == 2 else dict(exc=n)
           for i, n in enumerate(sorted(PL.EXC)) if n not in {m["exc"] for m in MODES if m and "exc" in m}]
 
 
+CAST_EXC = ["OverflowError", "RuntimeError", "ZeroDivisionError", "UserError", "ArithmeticError", "RecursionError"]
+
+
 def gen_cases(ctx):
     cases = gen_cases0(ctx)
     out = []
     for i, (cfg, ops, t) in enumerate(cases):
         m = MODES[i % len(MODES)]
-        if m is not None:
+        if i % 9 == 4 and "raisehist" not in repr(cfg):
+            # the cast itself fails, with an exception that is neither TypeError nor ValueError (those mean "False")
+            cfg = castraise_cfg(cfg, CAST_EXC[(i // 9) % len(CAST_EXC)])
+        elif m is not None:
             cfg = dict(cfg, mode=m)
         out.append((cfg, ops, t))
     return out
@@ -197,7 +234,8 @@ def run(ctx, res):
         res.note_case((PL.config_coq(cfg), repr(ops), repr(cfg.get("mode"))), nontrivial)
         res.count("stream_len_%d" % min(len(ops), 12))
         m = cfg.get("mode") or {}
-        res.count("raises_%s_from_%s" % (m.get("exc") or "PredRaise", "typed-predicate-cast-path" if m.get("typed") else "plain-predicate"))
+        res.count("raises_%s_from_%s" % (m.get("castexc") or m.get("exc") or "PredRaise", "the-cast-itself" if m.get("castexc") else
+                                         "typed-predicate-cast-path" if m.get("typed") else "plain-predicate"))
         res.count("raised" if nontrivial else "raise_point_not_reached")
         coq_cases.append((SD.case_coq(cfg, ops), out))
         if fail:
